@@ -5,13 +5,13 @@ VIEW = {"accepted", "bins", "freq", "err2", "missed", "total", "live", "adaptive
 GRIDS = [[GridEmb(1.0), GridEmb(0.5)], [GridEmb(0.1), GridEmb(2.5, 0.5)]]
 
 
-def _run(ctx, tier, label, base="MC_Adaptive_add", req=("NewEmpty", "NewFilled", "Add", "IAdd", "Copy", "Project", "Fill", "FillN")):
+def _run(ctx, tier, label, base="MC_Adaptive_add", req=("NewEmpty", "NewFilled", "Add", "IAdd", "Copy", "Project", "Fill", "FillN"), quick_budget=50000):
     if tier == "thorough":
         ctx.model_check(base + "t", dump=False)
     _res, g = ctx.model_check(base + "q", required_actions=list(req))
     for n, gr in enumerate(GRIDS if tier == "thorough" else GRIDS[:1]):
         ctx.replay(g, AdaptiveAdapter(gr, spelling=n, stats_cls="M"), VIEW, label=f"{label}:" + "/".join(x.name for x in gr),
-                   edge_budget=50000 if tier == "quick" else 300000)
+                   edge_budget=quick_budget if tier == "quick" else 300000)
     return g
 
 
@@ -30,10 +30,10 @@ def dtype_part(ctx, tier):
 
 
 def independence_part(ctx, tier):
-    g = _run(ctx, tier, "adaptive-independence")
+    g = _run(ctx, tier, "adaptive-independence", quick_budget=40000)
     # the same histories with histograms that become adaptive only after copies / projections were derived from them
     ctx.replay(g, AdaptiveAdapter(GRIDS[0], spelling=1, stats_cls="M", late=True), VIEW - {"adaptive"}, label="adaptive-independence-late:" + "/".join(x.name for x in GRIDS[0]),
-               edge_budget=50000 if tier == "quick" else 300000)
+               edge_budget=40000 if tier == "quick" else 300000)
 
 
 def collection_part(ctx, tier):
